@@ -1,0 +1,39 @@
+//go:build verif
+
+package storage
+
+import "github.com/dgraph-io/badger/v4"
+
+// VerifKV is one key/value pair of a full store dump.
+type VerifKV struct {
+	DB    string // "snapshots" or "cache"
+	Key   []byte
+	Value []byte
+}
+
+// VerifDump returns every key/value pair of both Badger databases in key
+// order (read-only; used by the verification harness to observe atomicity).
+func (s *BadgerStore) VerifDump() []VerifKV {
+	var out []VerifKV
+	for _, d := range []struct {
+		name string
+		db   *badger.DB
+	}{{"snapshots", s.snapshotsDB}, {"cache", s.cacheDB}} {
+		txn := d.db.NewTransaction(false)
+		opts := badger.DefaultIteratorOptions
+		opts.PrefetchValues = true
+		it := txn.NewIterator(opts)
+		for it.Rewind(); it.Valid(); it.Next() {
+			item := it.Item()
+			k := item.KeyCopy(nil)
+			v, err := item.ValueCopy(nil)
+			if err != nil {
+				panic(err)
+			}
+			out = append(out, VerifKV{DB: d.name, Key: k, Value: v})
+		}
+		it.Close()
+		txn.Discard()
+	}
+	return out
+}
